@@ -23,34 +23,48 @@ theorem isZero_iff (b : Bits) : isZero b = true ↔ b.toNat % 2 ^ 63 = 0 := by
   simp only [Bool.and_eq_true, beq_iff_eq]
   omega
 
-/-- the order key of `sort.Float64s`: NaNs first (all alike), then by value, −0 = +0 -/
+/-- the order key of `NewSample`'s sort: NaNs first (negative sign first), then by value, and
+for equal magnitude the negative one first — so −0 comes before +0 -/
 def fkey (x : Bits) : Int :=
-  if isNaN x then -(2 ^ 64 : Int)
-  else if signBit x then -((x.toNat % 2 ^ 63 : Nat) : Int) else ((x.toNat % 2 ^ 63 : Nat) : Int)
+  if isNaN x then (if signBit x then -(2 ^ 66 : Int) - 1 else -(2 ^ 66 : Int))
+  else if signBit x then -(2 * ((x.toNat % 2 ^ 63 : Nat) : Int)) - 1 else 2 * ((x.toNat % 2 ^ 63 : Nat) : Int)
 
 theorem f64Less_iff (a b : Bits) : f64Less a b = true ↔ fkey a < fkey b := by
   have hla := a.toNat_lt
   have hlb := b.toNat_lt
-  unfold f64Less F64.lt fkey
+  have sa : signBit a = decide (2 ^ 63 ≤ a.toNat) := by
+    rw [Bool.eq_iff_iff]; simp [signBit_iff]
+  have sb : signBit b = decide (2 ^ 63 ≤ b.toNat) := by
+    rw [Bool.eq_iff_iff]; simp [signBit_iff]
+  unfold f64Less F64.lt F64.eq fkey
   cases hna : isNaN a <;> cases hnb : isNaN b
   · -- neither is NaN
     have za : isZero a = decide (a.toNat % 2 ^ 63 = 0) := by
       rw [Bool.eq_iff_iff]; simp [isZero_iff]
     have zb : isZero b = decide (b.toNat % 2 ^ 63 = 0) := by
       rw [Bool.eq_iff_iff]; simp [isZero_iff]
-    have sa : signBit a = decide (2 ^ 63 ≤ a.toNat) := by
-      rw [Bool.eq_iff_iff]; simp [signBit_iff]
-    have sb : signBit b = decide (2 ^ 63 ≤ b.toNat) := by
-      rw [Bool.eq_iff_iff]; simp [signBit_iff]
+    simp only [Bool.or_false, Bool.false_or, Bool.false_eq_true, if_false, Bool.and_false, Bool.not_false,
+      Bool.and_true, Bool.false_and]
     rw [za, zb, sa, sb]
+    have heq : (a == b) = decide (a.toNat = b.toNat) := by
+      rw [Bool.eq_iff_iff]; simp [← UInt64.toNat_inj]
+    rw [heq]
     by_cases h1 : a.toNat % 2 ^ 63 = 0 <;> by_cases h2 : b.toNat % 2 ^ 63 = 0 <;>
       by_cases h3 : 2 ^ 63 ≤ a.toNat <;> by_cases h4 : 2 ^ 63 ≤ b.toNat <;>
-      simp [h1, h2, h3, h4, UInt64.lt_iff_toNat_lt] <;> omega
-  · simp [hna, hnb]
-    split <;> omega
-  · simp [hna, hnb]
-    split <;> omega
-  · simp [hna, hnb]
+      by_cases h5 : a.toNat = b.toNat <;>
+      simp [h1, h2, h3, h4, h5, UInt64.lt_iff_toNat_lt] <;> omega
+  · simp only [hna, hnb, Bool.or_true, Bool.true_or, Bool.false_or, Bool.or_false, Bool.false_and, Bool.and_false,
+      Bool.true_and, Bool.not_true, Bool.false_eq_true, if_true, if_false, false_iff, Int.not_lt]
+    rw [sa, sb]
+    by_cases h3 : 2 ^ 63 ≤ a.toNat <;> by_cases h4 : 2 ^ 63 ≤ b.toNat <;> simp [h3, h4] <;> omega
+  · simp only [hna, hnb, Bool.or_true, Bool.true_or, Bool.false_or, Bool.or_false, Bool.false_and, Bool.and_false,
+      Bool.true_and, Bool.not_false, Bool.and_true, if_true, if_false, true_iff]
+    rw [sa, sb]
+    by_cases h3 : 2 ^ 63 ≤ a.toNat <;> by_cases h4 : 2 ^ 63 ≤ b.toNat <;> simp [h3, h4] <;> omega
+  · simp only [hna, hnb, Bool.or_true, Bool.true_or, Bool.false_or, Bool.or_false, Bool.and_true, Bool.true_and,
+      Bool.not_true, Bool.and_false, if_true]
+    rw [sa, sb]
+    by_cases h3 : 2 ^ 63 ≤ a.toNat <;> by_cases h4 : 2 ^ 63 ≤ b.toNat <;> simp [h3, h4]
 
 theorem insertF_perm' (x : Bits) (l : List Bits) : (insertF x l).Perm (x :: l) := insertF_perm x l
 
@@ -82,8 +96,9 @@ theorem sortFloats_sorted (l : List Bits) : (sortFloats l).Pairwise fun a b => f
   | nil => simp [sortFloats]
   | cons x xs ih => exact insertF_sorted x _ ih
 
-/-- a sample is CLEAN when the sort key separates its bit patterns: it does not mix +0 with −0
-and holds at most one NaN payload -/
+/-- a sample is CLEAN when the sort key separates its bit patterns. After commit 803247b the key
+separates ALL non-NaN patterns (−0 and +0 included); only two NaNs of the same sign with
+different payloads are not separated -/
 def Clean (l : List Bits) : Prop := ∀ a ∈ l, ∀ b ∈ l, fkey a = fkey b → a = b
 
 /-- sorted samples of two arrangements of a clean multiset are equal -/
@@ -97,39 +112,41 @@ theorem sortFloats_eq_of_perm {l l' : List Bits} (hp : l.Perm l') (hc : Clean l)
   · exact sortFloats_sorted l'
   · exact (sortFloats_perm l).trans (hp.trans (sortFloats_perm l').symm)
 
-/-- sufficient: no NaN, and not both a +0 and a −0 -/
-theorem clean_of_no_nan_no_mixed_zero (l : List Bits) (hn : ∀ a ∈ l, isNaN a = false)
-    (hz : (∀ a ∈ l, a ≠ negZero) ∨ (∀ a ∈ l, a ≠ posZero)) : Clean l := by
-  intro a ha b hb hk
+/-- the key separates any two non-NaN patterns -/
+theorem fkey_inj_of_not_nan (a b : Bits) (ha : isNaN a = false) (hb : isNaN b = false) (hk : fkey a = fkey b) :
+    a = b := by
   have hla := a.toNat_lt
   have hlb := b.toNat_lt
   unfold fkey at hk
-  rw [hn a ha, hn b hb] at hk
+  rw [ha, hb] at hk
   simp only [Bool.false_eq_true, if_false] at hk
   have sa := signBit_iff a
   have sb := signBit_iff b
-  have nz : negZero.toNat = 2 ^ 63 := by decide
-  have pz : posZero.toNat = 0 := by decide
   apply UInt64.toNat_inj.mp
   cases hsa : signBit a <;> cases hsb : signBit b <;>
-    simp only [hsa, hsb, Bool.false_eq_true, if_false, if_true, false_iff, true_iff, Nat.not_le] at hk sa sb
-  · omega
-  · -- a ≥ 0, b ≤ 0 with equal keys: both are zeros of different sign
-    have h1 : a.toNat = 0 := by omega
-    have h2 : b.toNat = 2 ^ 63 := by omega
-    have ea : a = posZero := UInt64.toNat_inj.mp (by rw [h1, pz])
-    have eb : b = negZero := UInt64.toNat_inj.mp (by rw [h2, nz])
-    rcases hz with hz | hz
-    · exact absurd eb (hz b hb)
-    · exact absurd ea (hz a ha)
-  · have h1 : b.toNat = 0 := by omega
-    have h2 : a.toNat = 2 ^ 63 := by omega
-    have eb : b = posZero := UInt64.toNat_inj.mp (by rw [h1, pz])
-    have ea : a = negZero := UInt64.toNat_inj.mp (by rw [h2, nz])
-    rcases hz with hz | hz
-    · exact absurd ea (hz a ha)
-    · exact absurd eb (hz b hb)
-  · omega
+    simp only [hsa, hsb, Bool.false_eq_true, if_false, if_true, false_iff, true_iff, Nat.not_le] at hk sa sb <;> omega
+
+/-- sufficient: at most one NaN bit pattern (in particular: no NaN, or only the NaN the reader
+produces for "NaN"); zeros of both signs are allowed -/
+theorem clean_of_one_nan_pattern (l : List Bits) (hn : ∀ a ∈ l, ∀ b ∈ l, isNaN a = true → isNaN b = true → a = b) :
+    Clean l := by
+  intro a ha b hb hk
+  cases hna : isNaN a <;> cases hnb : isNaN b
+  · exact fkey_inj_of_not_nan a b hna hnb hk
+  · exfalso
+    have hlb := b.toNat_lt
+    unfold fkey at hk; rw [hna, hnb] at hk
+    simp only [Bool.false_eq_true, if_false, if_true] at hk
+    cases signBit a <;> cases signBit b <;> (try simp only [Bool.false_eq_true, if_false, if_true] at hk) <;> omega
+  · exfalso
+    have hla := a.toNat_lt
+    unfold fkey at hk; rw [hna, hnb] at hk
+    simp only [Bool.false_eq_true, if_false, if_true] at hk
+    cases signBit a <;> cases signBit b <;> (try simp only [Bool.false_eq_true, if_false, if_true] at hk) <;> omega
+  · exact hn a ha b hb hna hnb
+
+theorem clean_of_no_nan (l : List Bits) (hn : ∀ a ∈ l, isNaN a = false) : Clean l :=
+  clean_of_one_nan_pattern l (fun a ha _ _ h _ => by rw [hn a ha] at h; cases h)
 
 end C15L
 
